@@ -29,7 +29,7 @@ import json
 with open(known, "w") as fh:
     import glob
     fs = []
-    for p in [os.path.join(HERE, "known_findings.json")] + sorted(glob.glob(os.path.join(HERE, "known.d", "*.json"))):
+    for p in [os.path.join(HERE, "known_findings.json")]:
         if os.path.exists(p):
             fs.extend(json.load(open(p)).get("findings", []))
     for f in fs:
